@@ -374,6 +374,9 @@ func checkIntRange(fr *frame, r *sym.Term, k types.BasicKind) {
 		}
 	}
 	lo, hi := kindRange(k)
+	if bl, bh, ok := sym.Bounds(r, map[*sym.Term]*[2]*big.Int{}); ok && bl.Cmp(lo) >= 0 && bh.Cmp(hi) <= 0 {
+		return
+	}
 	in := sym.And(sym.Le(sym.IntConstBig(lo), r), sym.Le(r, sym.IntConstBig(hi)))
 	if !fr.decide(in) {
 		panic(pathEnd{status: stIntOverflow, detail: "integer overflow possible in int mode"})
